@@ -79,7 +79,7 @@ def translate(ll, entries, spec, out_c, report, scale=None):
 
 CBMC_BASE = ['cbmc', '--no-standard-checks', '--pointer-check', '--bounds-check', '--div-by-zero-check',
              '--unwinding-assertions', '--drop-unused-functions', '--no-malloc-may-fail', '--json-ui',
-             '--trace', '--slice-formula']
+             '--slice-formula', '--object-bits', '12']
 
 
 def run_cbmc(cfile, entry, unwind, timeout, extra=(), mem_gb=24, unwindset=()):
